@@ -439,7 +439,11 @@ def trusted_base():
     return ['clang 14 JSON AST is the semantics of the C++ source',
             'cxx2c translation rules (cxx2c/*.py): classes->structs with flattened bases, references->pointers, value semantics by deep copy, exceptions->ovm_exc flag, asserts compiled out (NDEBUG as shipped)',
             'vstd: C model of std::vector/set/pair/array/algorithms with bounds assertions (cxx2c/stdmap.py); destructors and deallocation not represented',
-            'CBMC 6.11.0 goto-cc/goto-instrument(DFCC)/cbmc with the built-in SAT back end is sound on the emitted C subset',
+            'vstd also models std::bitset<N<=64> (unsigned long), std::rotate/sort/unique/find/... and the pointer-range algorithms used by VectorT (equal, fill, accumulate, inner_product, lexicographical_compare, min/max_element, transform, copy_n) following the standard\'s definitions',
+            'CBMC 6.11.0 goto-cc/goto-instrument(DFCC)/cbmc is sound on the emitted C subset; back end per obligation family as listed (built-in SAT, z3 4.8.12, cvc5 1.0 with --fpa)',
+            'instantiation drivers (tu/vector.cc, tu/props.cc): one-line functions calling one repository operation each; they are the entry points, the repository templates are the bodies proved',
+            'functions replaced by a recording/contract stub in a family are listed per family (contract_stubs); their own behaviour is decided only where another family enforces it',
+            'machine arithmetic: integer vectors are proved inside ranges that exclude signed overflow; IEEE doubles bit-exactly (NaN = NaN) in the operation order of the source',
             'allocation never fails (--no-malloc-may-fail); int is 32-bit, long 64-bit two\'s complement',
             'ResourceManager property notifications are stubs driving ghost property arrays (harness side)']
 
@@ -558,7 +562,7 @@ def write_evidence(prop, tier, seed, pairs, wall, nviol=0, undecided=None, known
                obligation_families=[dict(id=o.id, tier=o.tier, status=r['status'], reason=r['reason'][:200], cbmc_properties=len(r['results']),
                                          solver_s=round(r['solver_s'], 2), enforce=o.enforce, replaced_by_contract=o.replace,
                                          loop_invariant_step_obligations=r['loops'], from_result_cache=bool(r.get('cached')), covers=list(r['covers']), bounds=o.bounds, note=o.note,
-                                         extracted_functions=r.get('n_extracted', 0), refs_emitted_as_pointers=r.get('ptr_refs', [])) for o, r in pairs],
+                                         extracted_functions=r.get('n_extracted', 0), refs_emitted_as_pointers=r.get('ptr_refs', []), contract_stubs=sorted(o.stubs), enumerated_instances=r.get('enumerated_instances')) for o, r in pairs],
                proved_unbounded=sum(len(r['results']) for o, r in u if r['status'] == 'pass'),
                bounded=sum(len(r['results']) for o, r in b if r['status'] == 'pass'),
                backend=backends, static_facts=sum(len(r['results']) for o, r in st if r['status'] == 'pass'),
